@@ -23,6 +23,7 @@ from rs2lean import FnTr, Val, Var, Scope, Unit, StructInfo, parse_ty, lit_lean,
 
 LOG_MACROS = ("trace", "debug", "info", "warn", "error")
 TIMER_ERRORS = ["NoTimer", "CoarseTimer", "NotMonotonic", "TinyVariations", "TooManyStuck"]
+TRAIT_METHODS = {"Clone": {"clone"}, "RngCore": {"next_u32", "next_u64", "fill_bytes"}}
 BLACK_BOX_BODY = "unsafe { let ret = ptr :: read_volatile ( & dummy ) ; mem :: forget ( dummy ) ; ret }"
 
 # ------------------------------------------------------------------ AST utilities
@@ -275,6 +276,15 @@ class JFile:
                 self.methods[(None, k)] = v
         if dup:
             self.problems.append(f"functions defined twice: {sorted(dup)}")
+        # trait impls of JitterRng: an override of a defaulted method (Clone::clone_from, …) changes what the trait does
+        self.trait_extra = {}
+        for trait, ty, fns, consts in f.impls:
+            if ty == "JitterRng" and trait in TRAIT_METHODS:
+                extra = sorted(set(k for k, v in fns.items() if v.body is not None) - TRAIT_METHODS[trait])
+                if extra:
+                    for k in TRAIT_METHODS[trait]:
+                        self.trait_extra[k] = (f"impl {trait} also defines {', '.join(extra)}: the trait's other operations are no longer "
+                                               f"the defaults built from `{k}` that the model assumes")
         # ---- timer errors
         self.errors_ok = False
         if error_path:
@@ -1274,14 +1284,27 @@ class TmUnit:
             return rs2lean.translate_fn(self.plain, name)       # pure: the plain translator (unchanged output)
         if self.jf.problems:
             raise Unsupported("; ".join(self.jf.problems))
+        if name in self.jf.trait_extra:
+            raise Unsupported(self.jf.trait_extra[name])
         if key in self.unprepared:
             raise Unsupported(self.unprepared[key])
         if key not in self.prepared:
             raise Unsupported(f"{name} not found")
+        elim = self.prepared[key][1].get("eliminated")
+        if elim:
+            mine = [n for n, (k, f) in self.jf.nested.items() if k == key]
+            done = self.ext_done.get("JitterLfsr")
+            bad = [n for n in mine if n != "lfsr" or (done is not None and n not in done)]
+            if bad:
+                raise Unsupported(f"eliminated code ({', '.join(elim)}) may call the nested fn {bad[0]}, which is not translated "
+                                  "(its purity / termination is not established)")
         tr = TmFnTr(self, key)
         text = tr.translate()
         notes = {k: v for k, v in self.prepared[key][1].items() if v}
         notes["kind"] = self.sigs[key]["kind"]
+        ops = list(tr.partial.values())
+        notes["partial_ops"] = ops
+        text += f"\ndef {name}_partial_ops : List String := [" + ", ".join('"' + o + '"' for o in ops) + "]"
         if tr.notes:
             notes.update(tr.notes)
         self.notes[name] = notes
@@ -1315,6 +1338,7 @@ class TmFnTr(FnTr):
         self.kind, self.ret = self.sig["kind"], self.sig["ret"]
         self.mon = self.kind in ("tm", "opt")
         self.pending = self.noeff = self.effects = 0
+        self.partial = {}          # census of partial (possibly panicking) operations: key -> "op:type"
         self.loops = []            # enclosing early-exit loops: the accumulator names
         self.order = []            # variables in declaration order
         self.notes = {}
@@ -1535,6 +1559,7 @@ class TmFnTr(FnTr):
                 v = self.scope.get(b[1][0])
                 if v is not None and isinstance(v.ty, tuple) and v.ty[0] == "arr" and v.elems is None and v.ty[1] in INT and getattr(v, "is_list", False):
                     idx = self.expr(e[2], "nat")
+                    self.partial.setdefault(id(e), "index")
                     return Val(f"{v.lean}.getD {atomize_paren(self.to_nat(idx))} {lit_lean(0, v.ty[1])}", v.ty[1])
             raise Unsupported("indexing")
         return FnTr.read_place(self, e, want)
@@ -1606,12 +1631,21 @@ class TmFnTr(FnTr):
             return Val(f"{a.atom()} {op} {b.atom()}", "bool")
         shift = op in ("<<", ">>")
         a = self.expr(l, None if cmp else want)
+        if op in ("+", "-", "*", "/", "%", "<<", ">>") and not cmp:
+            pkey = (id(l), id(r))
+        else:
+            pkey = None
         guard = not self.stable(a)
         self.pending += guard
         try:
             b = self.expr(r, None if shift else (a.ty if a.ty is not None else (None if cmp else want)))
         finally:
             self.pending -= guard
+        if pkey is not None:
+            t = a.ty if a.ty is not None else (b.ty if not shift else None)
+            if not (a.lit is not None and b.lit is not None and a.ty is None and b.ty is None):
+                if not (shift and b.lit is not None and t in INT and b.lit < INT[t]):
+                    self.partial.setdefault(pkey, f"{op}:{t if t is not None else want}")
         if shift and b.lit is None:
             if a.ty not in INT:
                 raise Unsupported("shift of a value of unknown type by a variable amount")
@@ -1930,7 +1964,7 @@ class TmFnTr(FnTr):
                 cur = self.read_place_type(place)
                 b = self.expr(rhs, None if op in ("<<", ">>") else cur)
                 a = self.read_place(strip(place))
-                v = self.binop(op, ("val", a), ("val", b), None)
+                v = self.binop(op, self.val_node(s, 0, a), self.val_node(s, 1, b), None)
                 self.write_place(place, v)
             return
         if k == "expr":
@@ -1961,6 +1995,15 @@ class TmFnTr(FnTr):
         if k == "while":
             return self.while_stmt(s)
         raise Unsupported(f"statement {k}")
+
+    def val_node(self, s, i, v):
+        """a ("val", v) node that is the same object for the same statement (the census counts every source operation once)"""
+        c = self.__dict__.setdefault("_val_nodes", {})
+        k = (id(s), i)
+        if k not in c:
+            c[k] = ["val", v]
+        c[k][1] = v
+        return c[k]
 
     def read_place_type(self, place):
         saved = self.lines
@@ -2215,6 +2258,7 @@ class TmFnTr(FnTr):
                 if has_call(c) and self.has_effect(c):
                     raise Unsupported("assert! with an effectful condition")
                 cv = self.expr(c, "bool")
+                self.partial.setdefault(id(s), "assert")
                 lines, fin = self.sub_block(lambda: self.seq(rest, k))
                 return f"if {cv.lean} then {indent(self.blk(lines, fin), 2)}\nelse none"
             if s[0] == "expr" and s[1][0] == "if" and exits_in(s):
